@@ -382,7 +382,68 @@ def sql_varid(prog: Program) -> RuleResult:
         r.check(guarded, f"{j.short}#no-join-under-or", site(j, jc), src(jc)[:100], f"rejected while a disjunction is being translated (nesting-safe mark {sorted(nesting_safe)})",
                 "the equality is turned into an inner JOIN even inside a disjunction: the JOIN restricts every row and the equality disappears from the OR "
                 "(or_(f.parent == p.child, f.child.name == 'H1') returns nothing)")
+    # (4) the mark only means something while it is raised: the operands of the disjunction are translated *inside* the window between
+    # raising and lowering it - by calls that run their callee then and there (a generator function, a generator expression or a lambda only
+    # promise the work; it happens when the result is consumed, after the mark has been lowered)
+    if orf is not None and nesting_safe:
+        ocfg = CFG(orf.node)
+        for mk in sorted(nesting_safe):
+            ups = [n for n in ocfg.nodes if n.kind == "stmt" and ((isinstance(n.stmt, ast.AugAssign) and is_self_attr(n.stmt.target, mk) and isinstance(n.stmt.op, ast.Add))
+                                                                or (isinstance(n.stmt, ast.Assign) and any(is_self_attr(t, mk) for t in n.stmt.targets) and isinstance(n.stmt.value, ast.Constant) and n.stmt.value.value))]
+            downs = [n for n in ocfg.nodes if n.kind == "stmt" and n not in ups and ((isinstance(n.stmt, ast.AugAssign) and is_self_attr(n.stmt.target, mk))
+                                                                                  or (isinstance(n.stmt, ast.Assign) and any(is_self_attr(t, mk) for t in n.stmt.targets)))]
+            if not ups or not downs:
+                continue
+            inside = [n for n in ocfg.nodes if n.stmt is not None and n.kind in ("stmt", "test", "for") and any(ocfg.dominates(u.id, n.id) and u.id != n.id for u in ups)
+                      and not any(ocfg.dominates(d.id, n.id) for d in downs)]
+            target = prog.method(tr.qual, "translate_query", inherited=False)
+
+            def eager_reach(fn, seen=()):
+                """fn runs translate_query before it returns"""
+                if fn is None or fn in seen or fn.is_generator:
+                    return False
+                lazy_spans = []
+                for x in walk_local(fn.node):
+                    if isinstance(x, (ast.GeneratorExp,)):
+                        lazy_spans.append(x)
+                for c in calls_in(fn.node):
+                    if any(c in list(ast.walk(g)) for g in lazy_spans if not _materialised(fn.node, g)):
+                        continue
+                    if isinstance(c.func, ast.Attribute) and is_self_attr(c.func):
+                        t = prog.method(tr.qual, c.func.attr)
+                        if t is target or eager_reach(t, seen + (fn,)):
+                            return True
+                return False
+
+            def call_is_eager(n, c):
+                if not (isinstance(c.func, ast.Attribute) and is_self_attr(c.func)):
+                    return False
+                t = prog.method(tr.qual, c.func.attr)
+                if t is None:
+                    return False
+                if t is target or eager_reach(t):
+                    return True
+                # a generator function whose result is materialised on the spot
+                if t.is_generator and any(isinstance(p, ast.Call) and isinstance(p.func, ast.Name) and p.func.id in ("list", "tuple", "sorted") and c in p.args
+                                          for part in ocfg._own_parts(n) for p in ast.walk(part)):
+                    return any((isinstance(cc.func, ast.Attribute) and is_self_attr(cc.func) and (prog.method(tr.qual, cc.func.attr) is target or eager_reach(prog.method(tr.qual, cc.func.attr))))
+                               for cc in calls_in(t.node))
+                return False
+
+            ok = any(call_is_eager(n, c) for n in inside for part in ocfg._own_parts(n) for c in calls_in(part))
+            r.check(ok, f"translate_or#operands-translated-while-{mk}-is-raised", site(orf, ups[0].stmt), f"{len(inside)} statement(s) between raising and lowering",
+                    "the operands are translated by an eager call inside the window",
+                    f"nothing between raising and lowering {mk} actually translates the operands (the call only creates a generator / lazy sequence that is consumed after the mark has "
+                    "been lowered): an attribute equality inside or_(...) is then met with the mark down and turned into an INNER JOIN for every row instead of being rejected")
     return r
+
+
+def _materialised(fn_node, gen) -> bool:
+    """the generator expression is the argument of a call that consumes it at once"""
+    for x in ast.walk(fn_node):
+        if isinstance(x, ast.Call) and isinstance(x.func, ast.Name) and x.func.id in ("list", "tuple", "sorted", "set", "any", "all", "sum", "dict", "frozenset") and gen in x.args:
+            return True
+    return False
 
 
 def sql_alias(prog: Program) -> RuleResult:
